@@ -2,6 +2,7 @@ import LentilVerif.Model.Fourier
 import LentilVerif.Gen.Window
 import LentilVerif.Gen.PropagateMeta
 import LentilVerif.Model.Geometry
+import LentilVerif.Gen.PlaneType
 /-! Executable model of `lentil.propagate.propagate_dft` / `propagate_fft` and `Wavefront.field`, generic in the value
 type. The integer window logic is the *generated* kernel `Gen.dftWindow`, `Gen.maskShape`, `Gen.maskShift`
 (re-translated from lentil/propagate.py on every run); the float/array plumbing is written by hand and tied to the
@@ -135,6 +136,26 @@ def propagateDftCall (fs : List (TField K R)) (αr αc : R) (W0 W1 : Int) (shape
       (Gen.dftPropShapeDefault (Gen.dftShapeDefault W0 W1 shape).1 (Gen.dftShapeDefault W0 W1 shape).2 propShape).2 os).1
     (Gen.dftPropShapeOut (Gen.dftPropShapeDefault (Gen.dftShapeDefault W0 W1 shape).1 (Gen.dftShapeDefault W0 W1 shape).2 propShape).1
       (Gen.dftPropShapeDefault (Gen.dftShapeDefault W0 W1 shape).1 (Gen.dftShapeDefault W0 W1 shape).2 propShape).2 os).2 mask
+
+/-- outcome of `propagate_dft(wavefront, …)` on a wavefront of any plane type: refused by the plane-type check with the exception the
+generated table names, or the plane type of the result and the outcome of the rest of the call -/
+inductive DftCallOut (K : Type) where
+  | refusedBy (e : Gen.Err) : DftCallOut K
+  | done (ptype : Gen.WType) (o : DftOut K) : DftCallOut K
+
+/-- `propagate_dft` as called on a wavefront whose plane type is `w` (`none`: it has met no pupil / image plane): the plane-type check
+`_propagate_ptype` (generated table `Gen.codePropagate`) and the rest of the call `propagateDftCall`, in the order of the source statements
+(generated positions `Gen.dftPtypeStmt`, `Gen.dftMaskGuardStmt`): whichever comes first raises first -/
+def propagateDftTyped (w : Gen.WType) (fs : List (TField K R)) (αr αc : R) (W0 W1 : Int) (shape propShape : Gen.ShapeArg) (os : Int)
+    (mask : Option (Arr Bool)) : DftCallOut K :=
+  let body := propagateDftCall fs αr αc W0 W1 shape propShape os mask
+  match Gen.codePropagate w with
+  | .ok t => .done t body
+  | .refused e =>
+    if Gen.dftPtypeStmt < Gen.dftMaskGuardStmt then .refusedBy e
+    else match body with
+      | .ok _ _ _ => .refusedBy e
+      | other => .done w other
 end
 
 /-- value of an optional output field on the infinite zero-padded plane (`none` = no field was produced = zero) -/
